@@ -37,7 +37,10 @@ Alphabet == <<
   [type |-> 6,     vlen |-> 12, var |-> "hdrlike"],  \* 19 USERNAME whose value reads like attribute headers (type 0x0008 len 0 ...)
   [type |-> 0,     vlen |-> 1,  var |-> "ord"],      \* 20 reserved type 0x0000
   [type |-> 8,     vlen |-> 20, var |-> "tailfp"],   \* 21 MESSAGE-INTEGRITY whose last 8 value bytes read like a FINGERPRINT attribute
-  [type |-> 28,    vlen |-> 32, var |-> "tailfp"]    \* 22 MESSAGE-INTEGRITY-SHA256, likewise (a message may END in these bytes)
+  [type |-> 28,    vlen |-> 32, var |-> "tailfp"],   \* 22 MESSAGE-INTEGRITY-SHA256, likewise (a message may END in these bytes)
+  [type |-> 8,     vlen |-> 1,  var |-> "ord"],      \* 23 MESSAGE-INTEGRITY of 1 byte (3 padding bytes): hidden behind a SHA-256 attribute it must be stepped over whole
+  [type |-> 8,     vlen |-> 18, var |-> "ord"],      \* 24 MESSAGE-INTEGRITY of 18 bytes (2 padding bytes)
+  [type |-> 8,     vlen |-> 23, var |-> "ord"]       \* 25 MESSAGE-INTEGRITY of 23 bytes (1 padding byte)
 >>
 
 \* header variants: top two bits, cookie, class, method, declared length relative to the real body length
